@@ -37,7 +37,7 @@ RULE = ("scenario = (shape, firing order / variant, result kind, N): chain shape
         "being instances of a trivial Deferred subclass, of a subclass overriding pause/unpause/callback/"
         "errback via super(), or DeferredList/gatherResults aggregates over one source; generators and "
         "coroutines awaiting subclass instances; N in "
-        "{1e3, 1e4} (+1e5 for seven shapes) quick, 1e5 for all thorough.  A case is distinct by that tuple and "
+        "{1e3, 1e4} (+1e5 for three shapes) quick, 1e5 for all thorough.  A case is distinct by that tuple and "
         "is non-trivial when N >= 1000 (longer than the recursion limit could hide).")
 ASSUMPTIONS = [
     "trusted base: CPython's own RecursionError check at the default limit 1000 and sys._getframe depth walking",
@@ -361,11 +361,7 @@ def scenarios(ctx):
             for n in sizes:
                 out.append(("gen", variant, kind, n, None))
     out.append(("gen", "generator", "s", 100000, None))
-    out.append(("chain", "outer-first", "f", 100000, None))
     out.append(("chain", "outer-first", "s", 100000, "every7-after"))
-    out.append(("onedef", "fired", "s", 100000, None))
-    out.append(("gen", "coroutine", "f", 100000, None))
-    out.append(("gen", "nested", "s", 100000, None))
     out = [s + (None,) for s in out]
     # Deferred-subclass links: every chain shape x {trivial, overriding, DeferredList/gatherResults} x
     # {all, every 3rd, random half}
